@@ -20,7 +20,7 @@ BAD_PAYLOADS = [b"-1", b"", b"null", b"0", b"{}", b"[]", b'"x"', b'{"task_name":
 
 
 def gen_scenario(r, prof):
-    """prof: dict(limited_only, backlog, never, stop_p, n_p, ends_p, probe, faults, wtt_p)"""
+    """prof: dict(limited_only, backlog, never, stop_p, n_p, ends_p, probe, faults, wtt_p, slowcancel, abort_p)"""
     A = r.choice([1, 1, 2, 2, 3, 4] if prof.get("limited_only") else [None, 0, 1, 1, 1, 2, 2, 3, 4])
     P = r.choice([0, 0, 1, 1, 2, 3, 4])
     a_eff = A if A else 4
@@ -75,8 +75,28 @@ def gen_scenario(r, prof):
             m["cleanup_us"] = r.choice([50_000, 300_000, US, 2 * US])
         if m.get("tlabel_us") is not None and m["tlabel_us"] < dur and "cleanup_us" not in m and r.random() < .5:
             m["cleanup_us"] = r.choice([50_000, 300_000, US])
+        ap = prof.get("abort_p", 0)
+        if ap and prof.get("faults", True) and kind == "ok" and r.random() < ap:
+            # (opt-in per profile: no random draw without it, the other profiles' streams are unchanged)
+            # a middleware hook / the result backend fails with something `except Exception` does not stop: the hook or
+            # set_result raises asyncio.CancelledError itself, or awaits a future that somebody else cancels (a shared
+            # connection future cancelled by a reconnect) - the message's callback task then ends in the CANCELLED state -
+            # or raises another BaseException; also the two hooks the plain fault history never makes fail (post_save,
+            # on_error) with an ordinary exception.  fail_exc: cancel | base | error; fail_after_us: the failing call
+            # first awaits that long (async points only).
+            for k in ("pre_fail", "post_fail", "save_fail"):
+                m.pop(k, None)
+            where = r.choice(["post_fail", "save_fail", "save_fail", "psave_fail", "onerr_fail"]
+                             + ([] if "tlabel_us" in m else ["pre_fail"]))
+            m[where] = True
+            m["fail_exc"] = r.choice(["cancel", "cancel", "cancel", "base", "error"]) if where in ("psave_fail", "onerr_fail") \
+                else r.choice(["cancel", "cancel", "cancel", "base"])
+            if where == "onerr_fail" and m["out"] == "ret" and not (m.get("tlabel_us") is not None and m["tlabel_us"] < dur):
+                m["out"] = r.choice(["raise", "nores", "base"])      # on_error only runs for a failed execution
+            if where in ("post_fail", "save_fail", "psave_fail") and r.random() < .4:
+                m["fail_after_us"] = r.choice([1, 50_000, 300_000, US])
         msgs.append(m)
-    total = sum(m["dur"] + m.get("cleanup_us", 0) for m in msgs if m["dur"] > 0)
+    total = sum(m["dur"] + m.get("cleanup_us", 0) for m in msgs if m["dur"] > 0) + sum(m.get("fail_after_us", 0) for m in msgs)
     sc = dict(A=A, P=P, N=N, wtt_us=wtt, stop_us=None, ends=False, ack_type=r.choice([None, None, "when_received", "when_executed", "when_saved"]),
               msgs=msgs)
     if r.random() < prof.get("stop_p", .4):
@@ -252,7 +272,8 @@ def replay_print(ctx, path, oracle, check):
     raw = obs["raw"]
     shown = [e for e in raw if e[1] not in ("fin?", "poll", "semp.acq", "semp.rel") or e[0] == 0]
     for e in shown[:300]:
-        print("  %10d %s %s" % (e[0], e[1], "" if e[2] is None else e[2]))
+        print("  %10d %s %s%s" % (e[0], e[1], "" if e[2] is None else e[2],
+                                   " (the callback task ended CANCELLED)" if e[1] == "cb.done" and e[3] == "cancelled" else ""))
     print("  (%d raw events, idle polling omitted)" % len(raw))
     lts = obs["lts"]
     print("LTS trace (%d events): %s%s" % (len(lts), "; ".join(lts[:120]), " ..." if len(lts) > 120 else ""))
